@@ -201,7 +201,7 @@ def run_property(prop, tier="quick", seed=0, record_expected=False, only=None, j
     known_hits = []
     undecided = list(unknown)
     replay_dir = os.path.join(VERIF, "replays", prop)
-    for r in refuted:
+    for r in refuted + unknown:
         if r["name"] in known_open:
             known_hits.append(r)
             continue
@@ -231,6 +231,12 @@ def run_property(prop, tier="quick", seed=0, record_expected=False, only=None, j
         with open(rpath, "w") as f:
             json.dump(payload, f, indent=1, default=str)
         exp = expected.get(clause_of(r["name"]))
+        if r["status"] == "unknown":
+            # the solver did not decide; a natively reproduced disagreement with the oracle is still a real failing input
+            if rep is not None and rep.get("reproduced") is True and exp == "proved":
+                undecided.remove(r)
+                violations.append((r, rpath, ""))
+            continue
         if rep is not None and rep.get("reproduced") is True:
             violations.append((r, rpath, ""))
         elif rep is not None and rep.get("reproduced") is False:
